@@ -3,6 +3,7 @@
 package gen
 
 import (
+	"sort"
 	"strings"
 
 	"pgregory.net/rapid"
@@ -222,6 +223,43 @@ func init() {
 			}
 		}
 	}
+	// strings that collide with a real token under a popular unkeyed 32-bit hash (gen/collisions.go, found by
+	// cmd/collide), and the textbook collisions of the two polynomial hashes (h*31+c, h*33+c): a dispatch on the
+	// hash of the token that never compares the token itself takes them for the token
+	isAbv, isVal := map[string]bool{}, map[string]bool{}
+	for _, v := range spec.Versions {
+		for _, m := range v.Metrics {
+			isAbv[m.Abv] = true
+			for _, val := range m.Vals {
+				isVal[val] = true
+			}
+		}
+	}
+	addColl := func(tok, s string) {
+		if isAbv[tok] {
+			addA(s)
+		}
+		if isVal[tok] {
+			addV(s)
+		}
+	}
+	for _, c := range HashCollisions {
+		addColl(c.Token, c.S)
+	}
+	toks := make([]string, 0, 80)
+	for tok := range mergeKeys(isAbv, isVal) {
+		toks = append(toks, tok)
+	}
+	sort.Strings(toks) // never depend on map order: the pools must be the same in every run
+	for _, tok := range toks {
+		if len(tok) >= 2 {
+			for _, d := range []byte{31, 33} {
+				if tok[1] > d+32 {
+					addColl(tok, string([]byte{tok[0] + 1, tok[1] - d})+tok[2:])
+				}
+			}
+		}
+	}
 	// long names of the values in the specification texts and calculators: the most
 	// plausible strings for a widened value list to accept
 	for _, x := range []string{"HIGH", "LOW", "MEDIUM", "NONE", "CRITICAL", "High", "Low", "Medium", "None", "NETWORK", "ADJACENT", "ADJACENT_NETWORK", "LOCAL", "PHYSICAL",
@@ -231,6 +269,18 @@ func init() {
 		"LOW_MEDIUM", "MEDIUM_HIGH"} {
 		addV(x)
 	}
+}
+
+// mergeKeys returns the union of the key sets in a deterministic order (as a map from a sorted walk).
+func mergeKeys(a, b map[string]bool) map[string]bool {
+	out := map[string]bool{}
+	for k := range a {
+		out[k] = true
+	}
+	for k := range b {
+		out[k] = true
+	}
+	return out
 }
 
 // poolPick draws from the core pool half of the time and from the complete pool otherwise.
@@ -265,7 +315,7 @@ var Wrappers = [][2]string{{"(", ")"}, {"[", "]"}, {"{", "}"}, {"<", ">"}, {"\""
 // MutOps lists the mutation operators by name (for labels / evidence).
 var MutOps = []string{"byte-delete", "byte-insert", "byte-replace", "truncate", "append", "prepend",
 	"elem-delete", "elem-duplicate", "elem-swap-adjacent", "elem-move", "abv-replace", "val-replace", "colon-shape",
-	"empty-element", "header-replace", "append-vector", "case-flip", "elem-insert-foreign", "long-insert", "wrap"}
+	"empty-element", "header-replace", "append-vector", "case-flip", "elem-insert-foreign", "long-insert", "wrap", "block-move"}
 
 // Mutate applies 1..3 edits to a valid vector and returns the result with the
 // operator names. The result may or may not still be in the language - the
@@ -368,6 +418,18 @@ func apply(t *rapid.T, vi int, s string, op string) string {
 		rest := append(append([]string{}, x.elems[:i]...), x.elems[i+1:]...)
 		j := pos(len(rest) + 1)
 		x.elems = append(append(append([]string{}, rest[:j]...), el), rest[j:]...)
+	case "block-move":
+		if n < 3 {
+			return s
+		}
+		j := i + 1 + pos(n-i)
+		if j > n {
+			j = n
+		}
+		block := append([]string{}, x.elems[i:j]...)
+		rest := append(append([]string{}, x.elems[:i]...), x.elems[j:]...)
+		k := pos(len(rest) + 1)
+		x.elems = append(append(append([]string{}, rest[:k]...), block...), rest[k:]...)
 	case "abv-replace":
 		_, val, _ := strings.Cut(x.elems[i], ":")
 		x.elems[i] = poolPick(t, "abv", coreAbvs, allAbvs) + ":" + val
@@ -611,6 +673,25 @@ func OneEditNeighbourhood(vi int, s string) []string {
 	}
 	for j := 0; j <= n; j++ {
 		out = append(out, vec{x.header, ins(x.elems, j, "")}.join())
+	}
+	// whole blocks of consecutive elements (a metric group) moved to, or repeated at, every other position:
+	// a parser that recognises groups by their first metric may take them in any order
+	for i := 0; i < n; i++ {
+		for j := i + 2; j <= n; j++ {
+			block := x.elems[i:j]
+			rest := append(append([]string{}, x.elems[:i]...), x.elems[j:]...)
+			for k := 0; k <= len(rest); k++ {
+				if k == i {
+					continue
+				}
+				moved := append(append(append([]string{}, rest[:k]...), block...), rest[k:]...)
+				out = append(out, vec{x.header, moved}.join())
+			}
+			for _, k := range []int{0, i, j, n} {
+				dup := append(append(append([]string{}, x.elems[:k]...), block...), x.elems[k:]...)
+				out = append(out, vec{x.header, dup}.join())
+			}
+		}
 	}
 	for _, h := range headers {
 		out = append(out, h+strings.TrimPrefix(s, x.header))
